@@ -279,3 +279,11 @@ mod tests {
         assert_eq!(result.len(), 1);
     }
 }
+
+#[cfg(itree_verif)]
+impl<R, E: Expiration, V: ExpiredVal<E>> SegExpTree<R, E, V> {
+    /// Read-only copy of every bucket list: (value, place mask) per stored copy (verification hook).
+    pub fn verif_chunks(&self) -> Vec<Vec<(V, u64)>> {
+        self.chunks.iter().map(|c| c.buffer.iter().map(|e| (e.val, e.mask)).collect()).collect()
+    }
+}
